@@ -484,7 +484,7 @@ package electreIII
 //@ wire AlternativesMatrix
 //@   property C01 C05 C06 C20
 //@   json Alternatives=alternatives Values=values
-//@   gotypes Alternatives=*Alternatives Values=*Matrix
+//@   gotypes Alternatives=*model.Alternatives Values=*Matrix
 //@ wire electreIIIParams
 //@   property C01 C05 C20
 //@   json Criteria=criteria DistillationFun=distillationFun,omitempty
